@@ -104,7 +104,7 @@ def transitions(profile: str, universe: str, depth: int, maxpath: int = 3, model
 
 def _replay_chunk(chunk):
     import buildrun
-    return [buildrun.replay_transition(t, read_each=t.get("read_each", False)) for t in chunk]
+    return [buildrun.replay_transition(t, read_each=t.get("read_each", False), ask_each=t.get("ask_each", False)) for t in chunk]
 
 
 def replay_all(trans):
@@ -143,6 +143,10 @@ def run(pid: str, tier: str) -> dict:
         if profile == "dense":
             for t in trans:
                 t["read_each"] = True
+        if pid == "C06":   # in every other history the caller asks for validity after EVERY call (what validation memoises is in place)
+            import zlib
+            for t in trans:
+                t["ask_each"] = zlib.crc32(json.dumps(t["h"]).encode()) % 2 == 0
         states += info["states"]
         ntrans += info["transitions"]
         findings = replay_all(trans)
